@@ -22,6 +22,7 @@ from . import mutators_smtlib
 from . import mutators_strings
 from . import nodes
 from . import options
+from . import smtlib
 
 
 def get_all_mutators():
@@ -150,6 +151,9 @@ def collect_mutator_options(argparser):
 
 
 def auto_detect_theories(exprs):
+    # a comment inside a sort and the quoted spelling of a sort name must not
+    # hide the sort
+    exprs = [e for e in map(smtlib.without_comments, exprs) if e is not None]
     for name, tdata in get_all_mutators().items():
         # if a theory was explicitly enabled or disabled by the user, we don't
         # change it.
